@@ -368,6 +368,35 @@ func c19Keyed(w *World, r *Report, merge *ssa.Function) {
 	} else {
 		ob.Undecided("anchor/getHeader", "Engine.getHeader not found")
 	}
+	// every response gets a header read from the view when the response is built: the Header of a
+	// response literal (or the Header assigned to a response) is a getHeader call of the same
+	// function activation, not a value computed once and captured
+	if gh := w.Func("storage", "Engine.getHeader"); gh != nil {
+		for _, fn := range w.ModFuncs() {
+			top := fn
+			for top.Parent() != nil {
+				top = top.Parent()
+			}
+			if top.Package() == nil || top.Package().Pkg.Path() != modPath+"/storage" || top.Signature.Recv() == nil || !typeIs(top.Signature.Recv().Type(), modPath+"/storage", "Engine") {
+				continue
+			}
+			eachInstr(fn, func(in ssa.Instruction) {
+				st, ok := in.(*ssa.Store)
+				if !ok {
+					return
+				}
+				fa, ok := st.Addr.(*ssa.FieldAddr)
+				if !ok || fieldAddrName(fa) != "Header" || !strings.HasSuffix(typeString(deref(fa.X.Type())), "Response") {
+					return
+				}
+				call, isCall := st.Val.(*ssa.Call)
+				ob.Site(in.Pos(), "response header in "+FnName(fn)+" = "+Expr(st.Val))
+				if !isCall || StaticCallee(&call.Call) != gh {
+					ob.Violate("header-not-fresh@"+FnName(fn), in.Pos(), "the response header in "+FnName(fn)+" is `"+Expr(st.Val)+"`, not read from the view when the response is built: later messages of a stream report a leader and term frozen at its start")
+				}
+			})
+		}
+	}
 	ob.NeedFloor(6)
 }
 
@@ -409,6 +438,44 @@ func c19Feeders(w *World, r *Report) {
 		whole := (strings.Contains(arg, "toShardViewList(") && strings.HasSuffix(arg, ".ShardInfoList)")) || strings.HasSuffix(arg, ".ShardView")
 		if !whole {
 			ob.Violate("feeder-filters@"+FnName(ci.Parent()), ci.Pos(), FnName(ci.Parent())+" feeds the view with `"+arg+"`, not with the complete list it received: what it leaves out never reaches this node's view, and nodes exchanging state do not converge")
+		}
+	}
+	// one view: every field of type *shardView that is stored in the package (the cluster's and the
+	// gossip delegate's) holds the same object - the view the response headers are read from
+	{
+		type stSite struct {
+			in  *ssa.Store
+			src string
+		}
+		var sites []stSite
+		for _, fn := range w.ModFuncs() {
+			if fn.Package() == nil || fn.Package().Pkg.Path() != clusterPath {
+				continue
+			}
+			eachInstr(fn, func(in ssa.Instruction) {
+				st, ok := in.(*ssa.Store)
+				if !ok {
+					return
+				}
+				fa, ok := st.Addr.(*ssa.FieldAddr)
+				if !ok || !types.Identical(deref(st.Val.Type()), sv) {
+					return
+				}
+				if _, isPtr := st.Val.Type().(*types.Pointer); !isPtr {
+					return
+				}
+				sites = append(sites, stSite{st, Expr(st.Val)})
+				ob.Site(in.Pos(), "view held by "+typeString(deref(fa.X.Type()))+"."+fieldAddrName(fa)+" = "+Expr(st.Val))
+			})
+		}
+		fresh := 0
+		for _, s := range sites {
+			if strings.Contains(s.src, "newView(") && !strings.Contains(s.src, ".shardView") {
+				fresh++
+			}
+		}
+		if fresh > 1 {
+			ob.Violate("second-view", sites[len(sites)-1].in.Pos(), itoa(fresh)+" holders are given a view of their own (newView()): what gossip merges into one is never seen by the readers of the other")
 		}
 	}
 	var names []string
